@@ -20,6 +20,10 @@ pub struct BarSpec {
     pub on_finish: u8,
     /// initial message
     pub msg: String,
+    /// the first template line ends in a custom key that writes a line break and "nl<tag>": one more line,
+    /// produced by the key and not by the template or the message
+    #[serde(default)]
+    pub key_nl: bool,
 }
 
 #[derive(Debug, Clone, Serialize, Deserialize, PartialEq)]
@@ -58,6 +62,9 @@ pub enum MOp {
     /// ProgressBar::println from a destructor that runs while the calling thread unwinds from a panic
     /// (a guard that logs the failure of its task); the panic is caught and the program carries on
     BarPrintlnUnwinding(u16, String),
+    /// mp.clear() followed by mp.set_draw_target(a new target on the same terminal, same refresh rate): the
+    /// region is erased, what was printed stays, the next draws paint the members again
+    Retarget,
 }
 
 #[derive(Debug, Clone, Serialize, Deserialize)]
@@ -84,8 +91,11 @@ pub fn finish_of(k: u8) -> ProgressFinish {
     }
 }
 
-fn tpl_for(tag: usize, two: bool) -> STpl {
+fn tpl_for(tag: usize, two: bool, key_nl: bool) -> STpl {
     let mut lines = vec![vec![SPart::Lit(format!("B{tag}:")), SPart::Pos, SPart::Lit(" ".into()), SPart::Msg]];
+    if key_nl {
+        lines[0].push(SPart::KeyNl(format!("nl{tag}")));
+    }
     if two {
         lines.push(vec![SPart::Lit(format!(" b{tag} ")), SPart::Prefix, SPart::Lit(".".into())]);
     }
@@ -347,6 +357,8 @@ pub struct Interp {
     pub pending_text: bool,
     /// number of log lines that existed before the pending ones
     pub pending_from: usize,
+    /// refresh rate the target was created with
+    pub hz: Option<u8>,
 }
 
 /// What happened in one op, for the property-specific checks.
@@ -401,7 +413,7 @@ impl Interp {
             None => ProgressDrawTarget::term_like(vt.boxed()),
         };
         let mp = MultiProgress::with_draw_target(target);
-        Interp { vt, mp: Some(mp), handles: vec![], model: Model::default(), cols, rows, cut_to_height: false, stale_since_remove: false, stale_reap_seen: false, empty_suspend_line_seen: false, bottom_empty_frame_seen: false, limited: c.hz.is_some(), pending_text: false, pending_from: 0 }
+        Interp { vt, mp: Some(mp), handles: vec![], model: Model::default(), cols, rows, cut_to_height: false, stale_since_remove: false, stale_reap_seen: false, empty_suspend_line_seen: false, bottom_empty_frame_seen: false, limited: c.hz.is_some(), pending_text: false, pending_from: 0, hz: c.hz }
     }
 
     fn entry_mut(&mut self, tag: usize) -> Option<&mut Entry> {
@@ -411,7 +423,7 @@ impl Interp {
     fn new_bar(&mut self, spec: &BarSpec) -> (ProgressBar, Entry, std::sync::Arc<std::sync::atomic::AtomicU64>) {
         let tag = self.model.next_tag;
         self.model.next_tag += 1;
-        let tpl = tpl_for(tag, spec.two_lines);
+        let tpl = tpl_for(tag, spec.two_lines, spec.key_nl);
         let ticks = std::sync::Arc::new(std::sync::atomic::AtomicU64::new(0));
         let pb = ProgressBar::with_draw_target(spec.len, ProgressDrawTarget::hidden())
             .with_style(tpl.style().with_key("verif_tick_spy", TickSpy(ticks.clone())))
@@ -666,6 +678,26 @@ impl Interp {
                 }
                 out.phase_frames.push((vec![], self.model.log.len()));
             }
+            MOp::Retarget => {
+                if self.model.bottom_ever {
+                    // (where a new target starts relative to the shift rows of the old one is not specified)
+                    out.skipped = true;
+                    return Ok(out);
+                }
+                out.io_result = Some(mp.clear().map_err(|e| e.to_string()));
+                let target = match self.hz {
+                    Some(hz) => ProgressDrawTarget::term_like_with_hz(self.vt.boxed(), hz.max(1)),
+                    None => ProgressDrawTarget::term_like(self.vt.boxed()),
+                };
+                mp.set_draw_target(target);
+                self.model.blocks_optional();
+                reap_now = false;
+                for e in &mut self.model.entries {
+                    e.on_screen = false;
+                }
+                out.phase_frames.push((vec![], if self.pending_text { self.pending_from } else { self.model.log.len() }));
+                out.note = "retarget";
+            }
             MOp::MpSuspend(lines) | MOp::BarSuspend(_, lines) => {
                 // (rate-limited target: which bar rows are really on screen is not tracked - any such suspend counts)
                 if lines.first().map_or(false, |l| console::measure_text_width(l) == 0) && (self.limited || self.model.frame().iter().all(|l| l.is_empty())) && !self.model.log.is_empty() {
@@ -805,7 +837,7 @@ impl Interp {
             }
         }
         out.frames = self.vt.take_frames();
-        if self.pending_text && paint && !matches!(op, MOp::BarPrintlnUnwinding(..)) {
+        if self.pending_text && paint && !matches!(op, MOp::BarPrintlnUnwinding(..) | MOp::Retarget) {
             // the pending line makes this draw a forced text draw
             text_paint = true;
             self.pending_text = false;
@@ -902,7 +934,7 @@ pub fn fit_prefix(lines: &[String], rows: usize, cols: usize) -> Vec<String> {
 
 pub fn spec_strategy(cols: usize) -> BoxedStrategy<BarSpec> {
     (proptest::bool::weighted(0.3), proptest::option::weighted(0.8, 1u64..50), prop_oneof![3 => Just(2u8), 2 => Just(0u8), 1 => 1u8..5], short_text(cols))
-        .prop_map(|(two_lines, len, on_finish, msg)| BarSpec { two_lines, len, on_finish, msg })
+        .prop_map(|(two_lines, len, on_finish, msg)| BarSpec { two_lines, len, on_finish, msg, key_nl: false })
         .boxed()
 }
 
@@ -943,7 +975,7 @@ pub fn mop_strategy(cols: usize, with_wait: bool) -> BoxedStrategy<MOp> {
         1 => (s(), 0u8..3, s()).prop_map(|(i, h, a)| MOp::Readd(i, h, a)),
     ];
     if with_wait {
-        prop_oneof![24 => base, 2 => prop_oneof![Just(0u32), 1u32..50, 50u32..3000].prop_map(MOp::Wait), 1 => (s(), "[a-z]{1,4}").prop_map(|(i, t)| MOp::BarPrintlnUnwinding(i, t))].boxed()
+        prop_oneof![24 => base, 2 => prop_oneof![Just(0u32), 1u32..50, 50u32..3000].prop_map(MOp::Wait), 1 => (s(), "[a-z]{1,4}").prop_map(|(i, t)| MOp::BarPrintlnUnwinding(i, t)), 1 => Just(MOp::Retarget)].boxed()
     } else {
         base.boxed()
     }
@@ -958,6 +990,7 @@ pub fn decode_spec(u: &mut FuzzInput, cols: usize, single_line: bool) -> BarSpec
         len: if u.n(4) == 0 { None } else { Some(1 + u.n(48) as u64) },
         on_finish: [2u8, 2, 2, 0, 0, 1, 3, 4][u.n(7)],
         msg: u.short(cols),
+        key_nl: false,
     }
 }
 
@@ -1015,7 +1048,7 @@ pub fn decode_multi(u: &mut FuzzInput, flavour: u8) -> MultiCase {
     let step_ms = if hz.is_some() { [0u32, 0, 1, 200][u.n(3)] } else { 2 };
     let mut ops = vec![];
     if hz.is_some() {
-        ops.push(MOp::Add(BarSpec { two_lines: false, len: Some(9), on_finish: 0, msg: String::new() }));
+        ops.push(MOp::Add(BarSpec { two_lines: false, len: Some(9), on_finish: 0, msg: String::new(), key_nl: false }));
         ops.extend(std::iter::repeat(MOp::Tick(0)).take(22));
     }
     while !u.empty() && ops.len() < 60 {
